@@ -79,7 +79,11 @@ namespace sim
 			{
 				++last_executed;
 				if (verif::g_step_hook)
+				{
 					verif::g_step_hook(*this, 0, verif::g_step_hook_user);
+					// the hook may have posted work after the queue ran dry
+					m_service.restart();
+				}
 			}
 #else
 			last_executed = m_service.poll();
